@@ -12,7 +12,7 @@ DECIDED = ("R1 in alphabeta the mate score is built only under `no legal move` a
            "(terminal detection comes first), and the dead-position shortcut applies only to no queens/rooks/pawns and at most one minor piece in total; "
            "R4 the three root move loops end only by exhausting the generator or under timeout.is_complete(), and every root move is searched by alphabeta of the opposite policy; "
            "R5 the root keeps a move only if is_better(score, new) (strict, C14 order), so a later equal-or-worse move never displaces a mate.")
-DECIDED = DECIDED + ' R6 premise re-run here: the staged iteration the search relies on (captures first, then set_mask and the rest) loses no move (C10.R3, R7, R9).'
+DECIDED = DECIDED + ' R6 premise re-run here: the staged iteration the search relies on (captures first, then set_mask and the rest) loses no move (C10.R3, R7, R9). R7 the score search_with reports originates only from alphabeta results or P::WORST_SCORE (reaching definitions, field-sensitive): a shortcut returning a static evaluation would report Raw(..) for a mating move.'
 NOT_DECIDED = "that the move carrying the mate score checkmates on the actual board (needs C01 move generation and C03 check status as behaviours)"
 EXPLANATION = ("K2 guard extraction (control dependence chains described by the defining call of each branch value) over the MIR of the generic search functions; "
                "K4 table for the dead-position predicate; who-may-construct over the whole workspace.")
